@@ -207,7 +207,17 @@ class E2Shapes(ScriptEngine):
         if run.exit_code != 0:
             return Outcome("violation", cls="status", message=f"board exit code {run.exit_code}")
         # reference: the first shape (all-keyword first, then the others) the transpiler accepts
-        order = sorted(range(len(t["shapes"])), key=lambda i: (len(t["shapes"][i][0]), -len(t["shapes"][i][1])))
+        me = t["shapes"][case["shape_index"]]
+        n_pos_me = len(me[0])
+        sig_names = [p for p in inspect.signature(t["fn"]).parameters if p != "self"]
+        passed_me = set(sig_names[:n_pos_me]) | {n for n, _v in me[1]}
+
+        def passed(shape):
+            return set(sig_names[: len(shape[0])]) | {n for n, _v in shape[1]}
+
+        # same parameters passed, different calling convention; all-keyword in signature order first
+        order = [i for i in range(len(t["shapes"])) if passed(t["shapes"][i]) == passed_me]
+        order.sort(key=lambda i: (len(t["shapes"][i][0]), [sig_names.index(n) for n, _v in t["shapes"][i][1]]))
         for ri in order:
             ref_script = build_script(t, t["shapes"][ri])
             if ref_script == case["script"]:
